@@ -151,6 +151,25 @@ def binder_of(fn, target, it, use, pm, node):
     return None
 
 
+def _unwrap_filtered(b):
+    """`for x in (v for v in L if C(v))` (also a list comprehension) iterates over the elements of L that satisfy C: the binder is
+    re-pointed at L and the filter, written over x, is returned as guards [(test, True)]."""
+    out = []
+    while b.kind == 'iter' and isinstance(b.src, (ast.GeneratorExp, ast.ListComp)) and len(b.src.generators) == 1 \
+            and isinstance(b.src.elt, ast.Name) and isinstance(b.src.generators[0].target, ast.Name) \
+            and b.src.elt.id == b.src.generators[0].target.id and not b.src.generators[0].is_async:
+        g = b.src.generators[0]
+        v = g.target.id
+
+        class R(ast.NodeTransformer):
+            def visit_Name(self, n):
+                return ast.copy_location(ast.Name(id=b.elem, ctx=n.ctx), n) if n.id == v else n
+        for c in g.ifs:
+            out.append((R().visit(copy.deepcopy(c)), True))
+        b.src = g.iter
+    return out
+
+
 def _context(fn, node, pm):
     """Binders (outermost first) and guards [(test, truth)] governing the evaluation of `node`."""
     binders, guards = [], []
@@ -161,6 +180,8 @@ def _context(fn, node, pm):
         if isinstance(a, (ast.For, ast.AsyncFor)):
             if any(child is s for s in a.body):
                 b = binder_of(fn, a.target, a.iter, a, pm, a)
+                if b is not None:
+                    guards.extend(_unwrap_filtered(b))
                 binders.append(b if b is not None else Binder('opaque', a))
         elif isinstance(a, ast.While):
             binders.append(Binder('opaque', a))
@@ -170,6 +191,8 @@ def _context(fn, node, pm):
                 if child is g:
                     continue
                 b = binder_of(fn, g.target, g.iter, a, pm, a)
+                if b is not None:
+                    guards.extend(_unwrap_filtered(b))
                 binders.append(b if b is not None else Binder('opaque', a))
                 for c in g.ifs:
                     guards.append((c, True))
@@ -195,7 +218,22 @@ def _context(fn, node, pm):
         child = a
     binders.reverse()
     guards.reverse()
-    return binders, guards
+    # early exits: `if C: return / raise / continue / break` earlier in an enclosing block means not C afterwards
+    x = enclosing_stmt(node, pm)
+    early = []
+    while x is not None and x is not fn.node:
+        p_ = pm.get(id(x))
+        if p_ is None:
+            break
+        for blk in astq._blocks(p_):
+            if any(x is s_ for s_ in blk):
+                for s_ in blk:
+                    if s_ is x:
+                        break
+                    if isinstance(s_, ast.If) and not s_.orelse and s_.body and isinstance(s_.body[-1], (ast.Return, ast.Raise, ast.Continue, ast.Break)):
+                        early.append((s_.test, False))
+        x = p_
+    return binders, early + guards
 
 
 # ------------------------------------------------------------------------------------------------- collection
@@ -261,6 +299,12 @@ def _slot(fn, call, st, pm, ev):
         p2 = pm.get(id(par))
         if isinstance(p2, ast.Assign) and p2.value is par and isinstance(p2.targets[0], ast.Name):
             return ('comp', p2.targets[0].id, par, p2)
+        # X = await self.gather([recv(..) for ..]): the list of futures is awaited where it is built; X holds the received values
+        if isinstance(p2, ast.Call) and attr_tail(p2.func) == 'gather' and len(p2.args) == 1 and isinstance(pm.get(id(p2)), ast.Await):
+            p4 = pm.get(id(pm.get(id(p2))))
+            if isinstance(p4, ast.Assign) and len(p4.targets) == 1 and isinstance(p4.targets[0], ast.Name):
+                ev.gathered = p4
+                return ('comp', p4.targets[0].id, par, p4)
         return ('comp', None, par, None)
     if isinstance(par, ast.Call) and attr_tail(par.func) == 'append' and isinstance(par.func.value, ast.Name):
         return ('append', par.func.value.id, None, enclosing_stmt(par, pm))
@@ -360,6 +404,21 @@ def _mentions_party(ev, e):
 def _interval_guard(fn, ev, test, pm):
     """`lo <(=) X % M <(=) hi` -> (X lin, lo, hi) else None."""
     if not isinstance(test, ast.Compare):
+        return None
+    if len(test.ops) == 1 and isinstance(test.ops[0], (ast.Eq, ast.NotEq)):
+        # X % M == c  is [c, c];  X % M != 0  is [1, M - 1]
+        a, b = test.left, test.comparators[0]
+        if _mod_parts(b) is not None and _mod_parts(a) is None:
+            a, b = b, a
+        c = const_int(b)
+        if _mod_parts(a) is not None and is_M(fn, _mod_parts(a)[1], ev.node, pm) and c is not None and c >= 0:
+            inner = lin(fn, _mod_parts(a)[0])
+            if inner is None or opaque_mentions(inner, ['P'] + [x for b_ in ev.binders for x in b_.names()]):
+                return None
+            if isinstance(test.ops[0], ast.Eq):
+                return inner, Lin(c), Lin(c)
+            if c == 0:
+                return inner, Lin(1), Lin.sym('M') - 1
         return None
     terms = [test.left] + list(test.comparators)
     idx = [i for i, t in enumerate(terms) if _mod_parts(t) is not None and is_M(fn, _mod_parts(t)[1], ev.node, pm)]
